@@ -54,7 +54,7 @@ class Arm:
                 par["root"] = i + 1
             elif "BytesStart" in st:
                 par["event"] = i + 1
-            elif st.startswith("&mut std::vec::Vec<std::string::String>"):
+            elif st.startswith(SEEN_TYPES):
                 par["seen"] = i + 1
             elif "quick_xml::Reader<" in st:
                 par["reader"] = i + 1
@@ -207,7 +207,7 @@ class Roles:
                 self.tp_inplace = t.get("refs") != 0
             elif "BytesStart" in s:
                 self.tp_param["event"] = i + 1
-            elif s.startswith("&mut std::vec::Vec<std::string::String>"):
+            elif s.startswith(SEEN_TYPES):
                 self.tp_param["seen"] = i + 1
             elif "Option<&mut quick_xml::Reader" in s:
                 self.tp_param["reader"] = i + 1
@@ -456,11 +456,11 @@ def pm5_seen_list(r, R):
         return
     t = R.arm["Start"].seen_at_loop_level(cs)
     cs_loop = R.arm["Start"].via or cs
-    fresh = t[0] == "call" and t[1] in ("std::vec::Vec::new",) and t[3].bb not in (find_loop_of(b, R.ev.header) or (0, set()))[1]
-    ob(r, "PM5b.seen-list-per-activation", P + ("C01",), R.el.name, fresh, "the seen list is a Vec::new() local created once per activation, outside the event loop" if fresh else
+    fresh = t[0] == "call" and t[1] in SEEN_NEW and t[3].bb not in (find_loop_of(b, R.ev.header) or (0, set()))[1]
+    ob(r, "PM5b.seen-list-per-activation", P + ("C01",), R.el.name, fresh, "the seen list is an empty collection created once per activation, outside the event loop" if fresh else
        "the seen list is %s" % term_s(t), cs_loop, "PM5b|fresh")
     f = R.lib.fns[R.el.name]
-    leak = [t.get("s") for t in f["inputs"] if "Vec<std::string::String>" in t.get("s", "")]
+    leak = [t.get("s") for t in f["inputs"] if any(x[5:] in t.get("s", "") for x in SEEN_TYPES)]
     ob(r, "PM5b.seen-list-not-inherited", P, R.el.name, not leak, "the event loop takes no seen list from its caller: nested elements start with an empty one" if not leak else
        "the event loop receives a seen list from its caller (%s): repetition is no longer counted per parent occurrence" % leak, mir.line_of(R.el.span), "PM5b|inherit")
     # other writers of the seen list inside the event loop
@@ -480,7 +480,7 @@ def pm5_seen_list(r, R):
     tp = R.tp
     seen_arg = R.tp_param["seen"]
     pushes = [c for c in tp.calls() if cname(c.node) == "std::vec::Vec::push" and strip(term_of(tp, c.node["args"][0])) == ("arg", seen_arg)]
-    contains = [c for c in tp.calls() if cname(c.node) == "core::slice::contains" and _root_is_arg(strip(term_of(tp, c.node["args"][0])), seen_arg)]
+    contains = [c for c in tp.calls() if cname(c.node) in SEEN_CONTAINS and _root_is_arg(strip(term_of(tp, c.node["args"][0])), seen_arg)]
     ok_blocks = [s.bb for s in tp.assigns() if s.node["place"]["l"] == 0 and s.node["rv"]["k"] == "agg" and s.node["rv"]["variant"] == "Ok"]
     good = False
     why = "no push onto the seen list"
@@ -497,7 +497,27 @@ def pm5_seen_list(r, R):
             why = "every Ok path passes `if !seen.contains(name) { seen.push(name) }` with name = this tag's name"
         else:
             why = "push guard ok=%s, pushes the tag name=%s, on every Ok path=%s" % (g_ok, name_ok, bool(dom_ok))
-    ob(r, "PM5a.name-recorded", ("C01", "C03"), tp.name, good, why, pushes[0] if pushes else mir.line_of(tp.span), "PM5a|record")
+    # a set records by `insert(name)`, which is its own membership test: unconditional, before every Ok exit
+    inserts = [c for c in tp.calls() if cname(c.node) in SEEN_SET_INSERT and strip(term_of(tp, c.node["args"][0])) == ("arg", seen_arg)]
+    for p in inserts:
+        name_ok = _is_tag_name(tp, strip(term_of(tp, p.node["args"][1]), mir.VALUE_PRESERVING), R.tp_param["event"])
+        # conditions on the way to the insert may only be error exits of `?` (no Ok exit may bypass it)
+        dom_ok = bool(ok_blocks) and all(tp.dominates(p.bb, ob_) for ob_ in ok_blocks)
+        if name_ok and dom_ok:
+            good = True
+            why = "every Ok path passes `seen.insert(name)` with name = this tag's name"
+        else:
+            why = "set insert: inserts the tag name=%s, on every Ok path=%s" % (name_ok, dom_ok)
+    ob(r, "PM5a.name-recorded", ("C01", "C03"), tp.name, good, why, (pushes + inserts)[0] if pushes or inserts else mir.line_of(tp.span), "PM5a|record")
+    # PM5c: the membership tests speak about the *earlier* siblings: no test can run after this occurrence was recorded
+    late = []
+    for p in pushes + inserts:
+        after = set()
+        for nb in tp.succs(p.bb):
+            after |= tp.reach_from(nb)
+        late += [c for c in contains if c.bb in after]
+    ob(r, "PM5c.recorded-after-the-tests", ("C03",), tp.name, not late, "no membership test of the seen list is reachable from the point where this tag's name is recorded" if not late else
+       "the seen list is asked about the name after this occurrence was recorded: the first occurrence already counts as a repetition", (late or pushes + inserts or [mir.line_of(tp.span)])[0], "PM5c|order")
 
 
 def _root_is_arg(t, n):
@@ -525,6 +545,13 @@ def _is_contains_false(b, edge, contains_calls):
         return False
     false_edge = any(int(v) == 0 and t == s for v, t in tt["targets"])
     return false_edge != neg
+
+
+# the per-activation collection of the names already seen below the current element: a list or a set of Strings
+SEEN_TYPES = ("&mut std::vec::Vec<std::string::String>", "&mut std::collections::HashSet<std::string::String>", "&mut std::collections::BTreeSet<std::string::String>")
+SEEN_NEW = ("std::vec::Vec::new", "std::collections::HashSet::new", "std::collections::BTreeSet::new")
+SEEN_CONTAINS = ("core::slice::contains", "std::collections::HashSet::contains", "std::collections::BTreeSet::contains")
+SEEN_SET_INSERT = ("std::collections::HashSet::insert", "std::collections::BTreeSet::insert")
 
 
 BYTES_PRESERVING = mir.VALUE_PRESERVING + (
@@ -611,7 +638,7 @@ def pm6_multiple(r, R):
     """set_multiple is reached exactly when the seen list contains the name (both child paths); PM7 increment"""
     tp = R.tp
     seen_arg = R.tp_param["seen"]
-    contains = [c for c in tp.calls() if cname(c.node) == "core::slice::contains" and _root_is_arg(strip(term_of(tp, c.node["args"][0])), seen_arg)]
+    contains = [c for c in tp.calls() if cname(c.node) in SEEN_CONTAINS and _root_is_arg(strip(term_of(tp, c.node["args"][0])), seen_arg)]
     sm = [c for c in tp.calls() if c.node["callee"].get("path", "").endswith("Element::<T>::set_multiple") or cname(c.node).endswith("Element::set_multiple")]
     # the two child paths: Some / None outcome of remove_child(root, name)
     rc = [c for c in tp.calls() if cname(c.node).endswith("Element::remove_child")]
@@ -1319,7 +1346,7 @@ def pm10_demotion(r, R):
     ob(r, "PM10c.collected-are-demoted", ("C01", "C03", "C06"), ds.name, okc, why, sco[0] if sco else mir.line_of(ds.span), "PM10c|demote")
     # returns the same root
     rets = [s for s in ds.assigns() if s.node["place"]["l"] == 0 and s.node["rv"]["k"] == "agg" and s.node["rv"]["variant"] == "Ok"]
-    okr = len(rets) == 1 and strip(term_of(ds, rets[0].node["rv"]["ops"][0])) in (("arg", par["root"]), ("local", par["root"]))
+    okr = len(rets) >= 1 and all(strip(term_of(ds, s_.node["rv"]["ops"][0])) in (("arg", par["root"]), ("local", par["root"])) for s_ in rets)   # every Ok exit
     if f.get("output", {}).get("adt") == "element::Element":
         # an infallible step hands the element back directly
         plain = [s_ for s_ in ds.assigns() if s_.node["place"]["l"] == 0 and not s_.node["place"]["p"]]
@@ -1378,7 +1405,11 @@ def pm12_attributes(r, R):
     if not hasattr(R, "tp_excl"):
         return
     for path, blocks in R.tp_excl.items():
-        nx = [c for c in tp.calls() if cname(c.node) == "std::iter::Iterator::next" and "attributes::Attributes" in self_ty(c.node).get("s", "") and c.bb in blocks]
+        allnx = [c for c in tp.calls() if cname(c.node) == "std::iter::Iterator::next" and "attributes::Attributes" in self_ty(c.node).get("s", "")]
+        nx = [c for c in allnx if c.bb in blocks]
+        if not nx:
+            # the keys may be collected once, before the paths split (every path to the removal passes the loop)
+            nx = [c for c in allnx if tp.dominates(c.bb, R.tp_rc.bb)]
         if len(nx) != 1:
             ob(r, "PM12.attribute-loop", P, "%s: %s-child path" % (tp.name, path), False, "expected one loop over e.attributes(), found %d" % len(nx), R.tp_rc, "PM12|loop|%s" % path)
             continue
